@@ -260,6 +260,11 @@ type Listener struct {
 	// do: unlinking a socket, draining a queue). Whatever order Shutdown does things in, the accept loop must not mistake
 	// the woken Accept's error for a failure of the listener.
 	CloseDelay time.Duration
+	// CloseErr: what the FIRST Close reports although it did close the listener (a listener with cleaning up to do that
+	// went wrong: a socket file that could not be unlinked)
+	CloseErr error
+	// NilAddr: Addr returns nil (an in-memory listener has no network address; Serve needs none)
+	NilAddr bool
 }
 
 func NewListener() *Listener {
@@ -332,7 +337,7 @@ func (l *Listener) Close() error {
 	if !first {
 		return l.CloseAgainErr
 	}
-	return nil
+	return l.CloseErr
 }
 
 func (l *Listener) IsClosed() bool {
@@ -344,4 +349,9 @@ func (l *Listener) IsClosed() bool {
 	}
 }
 
-func (l *Listener) Addr() net.Addr { return memAddr("listener") }
+func (l *Listener) Addr() net.Addr {
+	if l.NilAddr {
+		return nil
+	}
+	return memAddr("listener")
+}
